@@ -40,7 +40,9 @@ CATALOGUE = [
     ("C07", "module-entry-not-deleted", M, "        self.send_client_close(module)\n        del self.modules[module.conn]", "        self.send_client_close(module)\n        if module.is_logger:\n            del self.modules[module.conn]"),
     ("C07", "client-closed-twice-on-disconnect", M, "        self.remove_module(src_module)\n\n    def add_subscription", "        self.send_client_close(src_module)\n        self.remove_module(src_module)\n\n    def add_subscription"),
     ("C07", "no-client-closed-on-read-error", M, "                                except ConnectionError as err:\n                                    self.disconnect_module(src)", "                                except ConnectionError as err:\n                                    for _t in src.subs:\n                                        self.subscriptions[_t].discard(src)\n                                    self.logger_modules.discard(src)\n                                    src.close()\n                                    del self.modules[src.conn]"),
-    ("C14", "drop-without-notice", M, "            else:\n                module.drops += 1\n                print(\"x\", end=\"\", flush=True)\n                self.send_failed_message(module, header, time.perf_counter())", "            else:\n                module.drops += 1\n                print(\"x\", end=\"\", flush=True)\n                if module.drops < 3:\n                    self.send_failed_message(module, header, time.perf_counter())"),
+    ("C14", "drop-without-notice", M, "                module.drops += 1\n                print(\"x\", end=\"\", flush=True)\n                dropped.append(module)", "                module.drops += 1\n                print(\"x\", end=\"\", flush=True)\n                if module.drops < 3:\n                    dropped.append(module)"),
+    ("C14", "failed-write-without-notice", M, "                except ConnectionError as err:\n                    failed_writes.append((module, err))\n            elif module.is_logger:", "                except BrokenPipeError as err:\n                    failed_writes.append((module, err))\n                except ConnectionError as err:\n                    self.remove_module(module)\n            elif module.is_logger:"),
+    ("C05", "notices-before-fanout-ends", M, "                except ConnectionError as err:\n                    failed_writes.append((module, err))\n            elif module.is_logger:", "                except ConnectionError as err:\n                    self.remove_module(module)\n                    self.send_failed_message(module, header, time.perf_counter())\n            elif module.is_logger:"),
     ("C14", "logger-skipped", M, "            elif module.is_logger:\n                # Block until logger is ready", "            elif module.is_logger and header.msg_type != cd.MT_FAILED_MESSAGE:\n                # Block until logger is ready"),
     ("C14", "recursion-guard-narrowed", M, "            cd.MT_FAILED_MESSAGE,\n            cd.MT_RTMA_LOG,\n", "            cd.MT_FAILED_MESSAGE,\n"),
     ("C14", "failed-header-dest-missing", M, "        for fname, ftype, *_ in data.msg_header._fields_:\n            setattr", "        for fname, ftype, *_ in data.msg_header._fields_[:7]:\n            setattr"),
@@ -116,6 +118,8 @@ def main():
             meta = os.path.join(root, d, "meta.json")
             if os.path.exists(meta):
                 m = json.load(open(meta))
+                if m.get("superseded_by"):
+                    continue  # applies to an earlier /repo only (see its meta.json)
                 entries.append(((m["property"], d), os.path.join(root, d)))
     else:
         entries = [(e, None) for e in CATALOGUE]
